@@ -26,6 +26,13 @@ def copy_value(data):
     if multi(data):
         return type(data)([copy_value(d) for d in data])
     elif isinstance(data, dict):
+        if type(data) is not dict and callable(getattr(data, 'copy', None)):
+            # a mapping subclass (e.g. a data class instance used as default) keeps its class
+            value = data.copy()
+            if type(value) is type(data):
+                for k, v in dict.items(value):
+                    dict.__setitem__(value, k, copy_value(v))
+                return value
         return {k: copy_value(v) for k, v in data.items()}
     return data
 
